@@ -484,3 +484,20 @@ func notNilPred(fn *ssa.Function, ifi *ssa.If, subj ssa.Value) (int, bool) {
 	}
 	return 1, true
 }
+
+// fieldLoadAnyName: v is a load of a struct field; returns the field's name
+func fieldLoadAnyName(v ssa.Value) (string, bool) {
+	un, ok := v.(*ssa.UnOp)
+	if !ok || un.Op != token.MUL {
+		return "", false
+	}
+	fa, ok := un.X.(*ssa.FieldAddr)
+	if !ok {
+		return "", false
+	}
+	n := fieldAddrName(fa)
+	if i := strings.LastIndex(n, "."); i >= 0 {
+		n = n[i+1:]
+	}
+	return n, n != ""
+}
